@@ -486,7 +486,6 @@ func (t *distributedTarget) saveObject(obj object.Object, encObj encodedObject) 
 	var repProg *repProgress
 	var l *zap.Logger
 
-nextRule:
 	for i := range ruleNum {
 		ruleIdx := getRuleIdx(i)
 
@@ -495,30 +494,13 @@ nextRule:
 				continue
 			}
 
-			if slices.Contains(ecRules[:ecRuleIdx], ecRules[ecRuleIdx]) { // has already been processed, see below
-				continue
-			}
-
-			payloadParts := t.encodedECParts[ecRuleIdx]
-			fin, err := handleECRule(ruleIdx, ecRuleIdx, payloadParts, ecRules[ecRuleIdx])
+			// a repeated rule has its own node list, limit and encoded parts
+			fin, err := handleECRule(ruleIdx, ecRuleIdx, t.encodedECParts[ecRuleIdx], ecRules[ecRuleIdx])
 			if err != nil {
 				return err
 			}
 			if fin {
 				break
-			}
-
-			for j := ecRuleIdx + 1; j < len(ecRules); j++ {
-				if ecRules[ecRuleIdx] != ecRules[j] {
-					continue
-				}
-				fin, err := handleECRule(i, j, payloadParts, ecRules[ecRuleIdx])
-				if err != nil {
-					return err
-				}
-				if fin {
-					break nextRule
-				}
 			}
 
 			continue
